@@ -41,9 +41,9 @@ def build_conv(chk=None):
     return ok, fails
 
 
-def real_run(cases, str_of=()):
+def real_run(cases, str_of=(), cfg=None):
     req = {"cases": [{"target": c["target"], "input": c["input"]} for c in cases], "str_of": list(str_of)}
-    p = V.run_py("r_conv.py", input_=json.dumps(req), timeout=3600)
+    p = V.run_py("r_conv.py", input_=json.dumps(req), timeout=3600, extra_env={"VERIF_CONV_CFG": cfg} if cfg else None)
     if p.returncode != 0:
         raise RuntimeError("r_conv failed: " + p.stderr[-3000:])
     return json.loads(p.stdout)
